@@ -1073,3 +1073,16 @@ Section TagFree.
     rewrite (draw_table_f_free s header ind st al Hs (proj2 (fit_g_nolt share _ n cs (map zlen cs) HN) st F)). reflexivity.
   Qed.
 End TagFree.
+
+(* where the text of a cell line sits: between padding, inside the cell format, before its separator *)
+Lemma pad_cell_holds pad a w v x : pad_cell pad a w v = Some x -> exists k1 k2, x = rep pad k1 ++ v ++ rep pad k2.
+Proof.
+  unfold pad_cell, fill. destruct (w - zlen v <? 0); [discriminate|]. intros H; injection H as <-.
+  destruct (a =? 0); [exists 0, (w - zlen v); reflexivity|]. destruct (a =? 1); [exists (w - zlen v), 0; now rewrite app_nil_r|].
+  eexists; eexists; reflexivity.
+Qed.
+Lemma row_line_unfold pre suf pad vc vr i c cells w cols a al :
+  row_line pre suf pad vc vr i (c :: cells) (w :: cols) (a :: al)
+  = (match pad_cell pad a w (nth i c []) with Some x => pre ++ x ++ suf ++ (match cells with [] => vr | _ => vc end) | None => [] end)
+    ++ row_line pre suf pad vc vr i cells cols al.
+Proof. reflexivity. Qed.
